@@ -73,7 +73,9 @@ def domain(tname: str, chars: Sequence[Any]) -> List[Any]:
     if len(chars) >= 4:
         # four leading digits are a year of 1000..9999 (the calendar closed forms are validated for those years)
         # (written per character - first digit not '0' - so that the solver-free pruner can use it)
-        pre.append(Or(*[Not(is_dig(c)) for c in chars[:4]], Ge(chars[0], 49)))
+        # - also when the year is preceded by blanks (the format checks TRIM the value)
+        for i in range(0, len(chars) - 3):
+            pre.append(Or(*[Not(Eq(c, 32)) for c in chars[:i]], *[Not(is_dig(c)) for c in chars[i:i + 4]], Ge(chars[i], 49)))
         if tname == "Time" and len(chars) >= 15:
             pre.append(Or(*[Not(is_dig(c)) for c in chars[11:15]], Ge(chars[11], 49)))
     if tname == "Time_Period":
